@@ -301,7 +301,8 @@ def _grid(S, T, V, rows=2, cols=2):
 
 def _write_series(dirpath, start, series, suffix='.dcm'):
     """series: {'uid', 'num', 'proto', 'descr', 'S', 'T', 'V', 'tags', 'priv',
-                'bad': last file has another pixel spacing (IncongruentImageError), 'gap': a middle slice is missing}"""
+                'bad': last file has another pixel spacing (IncongruentImageError), 'gap': a middle slice is missing,
+                'nopre': True = every file lacks the preamble and the DICM marker, 'mixed' = every other file}"""
     from props import stacklib
     S, T, V = series.get('S', 1), series.get('T', 1), series.get('V', 1)
     files = _grid(S, T, V)
@@ -335,7 +336,13 @@ def _write_series(dirpath, start, series, suffix='.dcm'):
                 delattr(ds, a)
         if series.get('priv', True):
             _add_private(ds, f['cell'][1])
-        ds.save_as(os.path.join(dirpath, '%04d%s' % (n, suffix)), enforce_file_format=True)
+        nopre = series.get('nopre')
+        if nopre is True or (nopre == 'mixed' and n % 2 == 1):
+            # no 128-byte preamble, no 'DICM' marker: pydicom refuses the file unless force=True (--force-read)
+            import pydicom
+            pydicom.dcmwrite(os.path.join(dirpath, '%04d%s' % (n, suffix)), ds, enforce_file_format=False)
+        else:
+            ds.save_as(os.path.join(dirpath, '%04d%s' % (n, suffix)), enforce_file_format=True)
         n += 1
     return n
 
@@ -1061,7 +1068,8 @@ class State:
             "sorted, reversed or shuffled) or over the real 2D_16Echo_qT2 files: -e/-i lists, --embed-meta/--dump-meta, --voxel-order, "
             "--time-var / --vector-var with and without order files, --group-by, --output-name/--output-ext/--dest-dir, --file-ext, "
             "--extract-private, --disable-translator, --force-read, --strict, plus the print-and-exit options and the error exits "
-            "(no source directory, bad translator tag, missing order file, an incongruent file under --strict, incomplete stack); "
+            "(no source directory, bad translator tag, missing order file, an incongruent file under --strict, incomplete stack); whole "
+            "directories (or every other file) without preamble / DICM marker with and without --force-read; "
             "non-trivial = at least two invocations of the sequence wrote files under different filter / extractor / embedding options")
 
     EXCL = ['EchoTime', 'Series', 'Rows', 'Foo', 'Repetition', '^Pixel']
@@ -1161,6 +1169,12 @@ class State:
                     'invs': [dict(OPT_DEFAULT, src_dirs=['d0'], embed_meta=True, disable_translator='all', extract_private=True),
                              dict(OPT_DEFAULT, src_dirs=['d0'], dump_meta=True),
                              dict(OPT_DEFAULT, src_dirs=['d0'], embed_meta=True, disable_translator='0x29_0x1020')]})
+        # force flags: files without preamble / DICM marker are read only with --force-read (parse_and_group(force=True))
+        out.append({'kind': 'force-read', 'dirs': [[dict(ser1, nopre=True)], [dict(ser1, uid=2, nopre='mixed', S=3)]],
+                    'invs': [dict(OPT_DEFAULT, src_dirs=['d0'], force_read=True, embed_meta=True),
+                             dict(OPT_DEFAULT, src_dirs=['d0', 'd1']),
+                             dict(OPT_DEFAULT, src_dirs=['d1', 'd0'], force_read=True, dump_meta=True),
+                             dict(OPT_DEFAULT, src_dirs=['d1'], force_read=True, strict=True)]})
         # real input (generated AND real, says the property)
         out.append({'kind': 'real', 'dirs': ['real'],
                     'invs': [dict(OPT_DEFAULT, src_dirs=['d0'], embed_meta=True, exclude_regex=['Echo']),
@@ -1193,6 +1207,12 @@ class State:
                 kind = 'incomplete'
             suffix = '.ima' if rng.random() < 0.12 else '.dcm'
             invs = [State._inv(rng, dirs, k, suffix) for k in range(rng.randrange(2, 5))]
+            if rng.random() < 0.15:
+                kind = 'force-read' if kind == 'valid' else kind
+                for ser in dirs[rng.randrange(len(dirs))]:
+                    ser['nopre'] = rng.choice([True, True, 'mixed'])
+                for v in invs:
+                    v['force_read'] = rng.random() < 0.6
             if kind == 'incongruent':
                 v = invs[rng.randrange(len(invs))]
                 v['strict'] = True
